@@ -1087,3 +1087,138 @@ func pureCallbackParam(p *Program, f *FuncInfo, info *types.Info, call *ast.Call
 	}
 	return false
 }
+
+func init() {
+	Register(&Rule{
+		Name:  "R-SESSION-DROP",
+		Props: []string{"C11", "C10"},
+		Min:   2,
+		Doc: "a whole session entry is removed from Hub.sessions (delete(h.sessions, id)) only when, in the same critical section, the session's peer map was found empty (len(...) == 0 on the map looked up " +
+			"after the lock was taken) or every peer of it is being disconnected by this function (the map is iterated and its connections closed): a decision carried over an unlock is stale - " +
+			"a peer that joined in between would be dropped from routing although it never left",
+		Run: runSessionDrop,
+	})
+}
+
+func runSessionDrop(c *Ctx) {
+	p := c.P
+	muF, sessions, byPeer, _ := hubFields(c)
+	if muF == nil || sessions == nil || byPeer == nil {
+		return
+	}
+	n := 0
+	for _, f := range p.FuncsIn("internal/peers") {
+		info := f.Info()
+		cfgf := f.CFG()
+		al := hubAliases(f, sessions, byPeer)
+		isSessionsIndex := func(e ast.Expr) bool {
+			ix, ok := ast.Unparen(e).(*ast.IndexExpr)
+			if !ok {
+				return false
+			}
+			sel, ok := ast.Unparen(ix.X).(*ast.SelectorExpr)
+			if !ok {
+				return false
+			}
+			fv, _ := info.Uses[sel.Sel].(*types.Var)
+			return fv == sessions
+		}
+		isSessionMap := func(e ast.Expr) bool {
+			if isSessionsIndex(e) {
+				return true
+			}
+			if o := ObjOf(info, e); o != nil && al[o] {
+				if m, ok := o.Type().Underlying().(*types.Map); ok && strings.Contains(m.Elem().String(), "peerConnection") {
+					return true
+				}
+			}
+			return false
+		}
+		spec := &PassSpec{SkipDefer: true, NoInheritAsync: true}
+		spec.Vias = []Via{
+			{Cond: func(g *FuncInfo, e ast.Expr) (string, bool, bool) {
+				be, ok := ast.Unparen(e).(*ast.BinaryExpr)
+				if !ok {
+					return "", false, false
+				}
+				call, ok := ast.Unparen(be.X).(*ast.CallExpr)
+				if !ok || len(call.Args) != 1 {
+					return "", false, false
+				}
+				if id, ok := ast.Unparen(call.Fun).(*ast.Ident); !ok || id.Name != "len" || !isSessionMap(call.Args[0]) {
+					return "", false, false
+				}
+				z, isC := constInt(g.Info(), be.Y)
+				if !isC || z != 0 {
+					return "", false, false
+				}
+				switch be.Op {
+				case token.EQL, token.LEQ:
+					return "empty", true, true
+				case token.NEQ, token.GTR:
+					return "empty", false, true
+				}
+				return "", false, false
+			}},
+			// the alias itself must have been (re)read in this critical section: taking the alias establishes "fresh"
+			{Stmt: func(g *FuncInfo, nd ast.Node) (string, bool) {
+				fresh := false
+				InspectNoLits(nd, func(m ast.Node) bool {
+					if as, ok := m.(*ast.AssignStmt); ok && len(as.Rhs) == 1 && isSessionsIndex(as.Rhs[0]) {
+						fresh = true
+					}
+					return true
+				})
+				if fresh {
+					return "fresh", true
+				}
+				return "", false
+			}},
+			// disconnect-all: the session's map is iterated (its peers collected/closed) in this section
+			{Stmt: func(g *FuncInfo, nd ast.Node) (string, bool) {
+				if rs, ok := nd.(*ast.RangeStmt); ok && isSessionMap(rs.X) {
+					return "all-closed", true
+				}
+				return "", false
+			}},
+		}
+		spec.KillAll = func(g *FuncInfo, nd ast.Node) bool {
+			kill := false
+			InspectNoLits(nd, func(m ast.Node) bool {
+				if call, ok := m.(*ast.CallExpr); ok {
+					if _, op, ok := mutexOp(g.Info(), call); ok && (op == "Unlock" || op == "RUnlock") {
+						kill = true
+					}
+				}
+				return true
+			})
+			return kill
+		}
+		cfgf.EachNode(func(r NodeRef) {
+			if !isDeleteOf(info, r.Node(), func(arg ast.Expr) bool {
+				sel, ok := ast.Unparen(arg).(*ast.SelectorExpr)
+				if !ok {
+					return false
+				}
+				fv, _ := info.Uses[sel.Sel].(*types.Var)
+				return fv == sessions
+			}) {
+				return
+			}
+			n++
+			key := fmt.Sprintf("session-drop/%s#%d", f.Name, n)
+			// go/cfg lists a range statement's body, not the statement, as a node: look for the range over the session map syntactically
+			rangesAll := false
+			ast.Inspect(f.Body, func(m ast.Node) bool {
+				if rs, ok := m.(*ast.RangeStmt); ok && isSessionMap(rs.X) && rs.Pos() < r.Node().Pos() {
+					rangesAll = true
+				}
+				return true
+			})
+			empty := spec.Passed(f, r, "empty") && spec.Passed(f, r, "fresh")
+			c.Check(empty || rangesAll, key, r.Node().Pos(), "session entry dropped only when found empty in this critical section, or with all its peers being disconnected",
+				"delete(h.sessions, ...) without an emptiness test of the freshly looked-up session map in the same critical section (and without disconnecting its peers): a decision taken before the lock was released is stale, a peer that joined in between is removed from routing although it never left",
+				"facts here: "+strings.Join(spec.PassedList(f, r), ", "))
+		})
+	}
+}
